@@ -66,7 +66,7 @@ func runC20(c *Ctx, r *Report) {
 	checkDequeuedReturned(c, r, "C20/dequeued-returned")
 	r.Rule("C20/pointer-receivers", "every method of the queue has a pointer receiver (a value receiver copies depth and the slice header before the lock is taken)", 1)
 	checkPointerReceivers(c, r, "C20/pointer-receivers", func(n *types.Named) bool { return n.Obj().Name() == "Queue" })
-	r.Rule("C20/locked", "every access to Queue.queue / Queue.depth holds Queue.lock (write lock for writes)", 15)
+	r.Rule("C20/locked", "every access to Queue.queue / Queue.depth holds Queue.lock (write lock for writes)", 8)
 	r.Rule("C20/token", "mailbox is 1-slot and primed once; every receive from it is followed on all paths by exactly one send, with no lock acquisition or other channel operation in between", 3)
 	r.Rule("C20/republish", "every method that changes the list also stores depth and then sends that depth to the mailbox on every path to its return", 4)
 	r.Rule("C20/non-blocking-empty", "Dequeue/DequeueAll return nil on zero depth before locking; the list is only indexed on the non-zero edge", 2)
